@@ -365,3 +365,26 @@ def fresh_import_run(env, fn, *args):
         import_xfab()
         return fn(*args)
     return isolated(child)
+
+
+# --------------------------------------------------------------------------- warnings filter of the process
+class warn_config(object):
+    """'ignore' (the simulator's default), 'default' or 'error' (python -W error / pytest filterwarnings=error):
+    with 'error' any warning the code under test emits becomes an exception at the point of emission."""
+
+    def __init__(self, mode):
+        self.mode = mode or "ignore"
+
+    def __enter__(self):
+        import warnings
+        self.cm = warnings.catch_warnings()
+        self.cm.__enter__()
+        warnings.simplefilter({"ignore": "ignore", "default": "default", "error": "error"}[self.mode])
+        return self
+
+    def __exit__(self, *a):
+        return self.cm.__exit__(*a)
+
+
+def gen_warn(rng):
+    return rng.weighted([("ignore", 6), ("default", 1), ("error", 3)])
